@@ -40,6 +40,96 @@ def _element_dicts(run, fn, ctor_name):
     return out
 
 
+def _endorsement_parse(run, PV, DA, gd, gg, se, gs):
+    """R2t: which bytes of the BOLOS answers become the certificate fields (absolute offsets, whatever the way the answer is walked)."""
+    P, A = run.P, run.A
+    from sa.canon import compose_slices
+    run.rule("R2t", "Endorsement answers are taken apart at the right offsets. GET_KEY(device) answers three length-prefixed fields n1 | header | n2 | key | n3 | "
+             "signature: with R the answer, header = R[1:1+R[0]], key = R[2+R[0] : 2+R[0]+R[1+R[0]]], signature = the field after it; the result is pubkey = key, "
+             "message = u8(ROLE.DEVICE) | header | key, signature, all hex. SETUP_ENDO answers key(65) | signature: pubkey = R[:65], signature = R[65:], message = "
+             "u8(ROLE.ENDORSEMENT) | pubkey; the scheme is sent as SETUP_ENDO | scheme | 0 | 0 and acknowledged with SETUP_ENDO_ACK | 0 | 0 | len(cert) | cert.")
+
+    def C(t):
+        return _strip(compose_slices(t))
+    for fn, g, kind in ((gd, gg, "device"), (se, gs, "endorsement")):
+        sends = send_sites(run, fn)
+        L = Layout(lambda e, fn=fn: try_fold(P, e, fn, DA))
+        lays = []
+        for c, cmd in sends:
+            for cn in g.nodes_of(c):
+                ls = {L.canon(x) for x in PV.expand_consistent(fn, DA, c.args[1], cn)} if len(c.args) > 1 else {""}
+                lays.append((cmd.name if isinstance(cmd, EnumMember) else "?", sorted(ls), c))
+        rets = [n for n in A.own_nodes(fn) if isinstance(n, ast.Return) and isinstance(n.value, ast.Dict)]
+        run.check("R2t", len(rets) == 1, f"{fn.name} returns the three-field result once", key=f"{fn.name}|result-sites", where=fn.loc(), message=f"{fn.name}: {len(rets)} result sites")
+        if len(rets) != 1:
+            continue
+        d = {k.value: v for k, v in zip(rets[0].value.keys, rets[0].value.values) if isinstance(k, ast.Constant)}
+        run.check("R2t", set(d) == {"pubkey", "message", "signature"}, f"{fn.name} result fields", key=f"{fn.name}|result-fields", where=fn.loc(rets[0]),
+                  message=f"{fn.name} returns fields {sorted(d)}")
+        if set(d) != {"pubkey", "message", "signature"}:
+            continue
+        if kind == "device":
+            first = [x for x in lays if x[0] == "GET_KEY" and x[1] == ["u8(self.SUBCMD.GET_KEY_DEVICE) | u8(0) | u8(0)"] or x[1] == [f"u8({_sub(P, DA, 'GET_KEY_DEVICE')}) | u8(0) | u8(0)"]]
+            run.check("R2t", len(first) == 1, "one GET_KEY | GET_KEY_DEVICE | 0 | 0 request", key="get_device_key|request", where=fn.loc(),
+                      message=f"get_device_key's requests are {[(a, b) for a, b, _ in lays]}; expected one GET_KEY request for the device key")
+            if len(first) != 1:
+                continue
+            Rt = norm(first[0][2])
+            H = f"{Rt}[1:1 + {Rt}[0]]"
+            K = f"{Rt}[2 + {Rt}[0]:2 + {Rt}[0] + {Rt}[1 + {Rt}[0]]]"
+            S0 = f"3 + {Rt}[0] + {Rt}[1 + {Rt}[0]]"
+            S = f"{Rt}[{S0}:{S0} + {Rt}[2 + {Rt}[0] + {Rt}[1 + {Rt}[0]]]]"
+            want = {"pubkey": C(f"{K}.hex()"), "signature": C(f"{S}.hex()"), "message": C(f"(bytes([self.ROLE.DEVICE]) + {H} + {K}).hex()")}
+        else:
+            first = [x for x in lays if x[0] == "SETUP_ENDO"]
+            ack = [x for x in lays if x[0] == "SETUP_ENDO_ACK"]
+            sch, cert = fn.params[1], fn.params[2]
+            run.check("R2t", len(first) == 1 and first[0][1] == [f"u8({sch}) | u8(0) | u8(0)"], "SETUP_ENDO | scheme | 0 | 0", key="setup_endorsement_key|request", where=fn.loc(),
+                      message=f"setup_endorsement_key's requests are {[(a, b) for a, b, _ in lays]}; expected SETUP_ENDO carrying the scheme")
+            run.check("R2t", len(ack) == 1 and ack[0][1] == [f"u8(0) | u8(0) | u8(len({cert})) | {cert}"], "SETUP_ENDO_ACK | 0 | 0 | len(cert) | cert", key="setup_endorsement_key|ack",
+                      where=fn.loc(), message=f"setup_endorsement_key acknowledges with {[(a, b) for a, b, _ in ack]}; expected the endorsement certificate, length-prefixed: "
+                      "without it the device does not commit the attestation key")
+            if len(first) != 1:
+                continue
+            okd_ = bool(ack) and all(any(g.dominates(a, b) for a in g.nodes_of(first[0][2])) for b in g.nodes_of(ack[0][2]))
+            run.check("R2t", okd_, "setup before its acknowledgement", key="setup_endorsement_key|order", where=fn.loc(), message="SETUP_ENDO_ACK can be sent before SETUP_ENDO")
+            Rt = norm(first[0][2])
+            want = {"pubkey": C(f"{Rt}[:65].hex()"), "signature": C(f"{Rt}[65:].hex()"), "message": C(f"(bytes([self.ROLE.ENDORSEMENT]) + {Rt}[:65]).hex()")}
+        if kind == "endorsement":
+            from sa.decide import Walker, cmp_parts
+            sch = fn.params[1]
+
+            def satom(e, sch=sch):
+                cp = cmp_parts(e)
+                if cp is None:
+                    return None
+                l, op, r = cp
+                if op in ("in", "not in") and norm(l) == sch and isinstance(r, (ast.List, ast.Tuple, ast.Set)) \
+                        and all(isinstance(x, ast.Constant) for x in r.elts) and {x.value for x in r.elts} == {1, 2}:
+                    return ("SCHEME", op == "in")
+                return None
+            for lf in Walker(A, fn, DA, satom, max_leaves=32).walk(g.entry):
+                unknown = sorted(k[1:] for k in lf.pc if isinstance(k, str) and k.startswith("?"))
+                okw = not unknown and ((lf.kind == "raise" and lf.pc.get("SCHEME") is False) or (lf.kind == "return" and lf.pc.get("SCHEME") is True))
+                run.check("R2t", okw, "setup_endorsement_key refuses exactly the schemes other than 1 and 2", key=f"setup_endorsement_key|scheme|{lf.kind}|{sorted(lf.pc.items())}"[:100],
+                          where=fn.loc(lf.node.ast) if lf.node.ast is not None else fn.loc(),
+                          message=f"setup_endorsement_key ends in `{lf.kind}` under {sorted(lf.pc.items())}: expected a refusal exactly for a scheme outside {{1, 2}} (onboarding uses "
+                                  "scheme 2: refusing it leaves the device without an attestation key)")
+        for rn in g.nodes_of(rets[0]):
+            for key in ("pubkey", "message", "signature"):
+                got = {C(x) for x in PV.expand_consistent(fn, DA, d[key], rn)}
+                run.check("R2t", got == {want[key]}, f"{fn.name}: {key} is the right part of the answer", key=f"{fn.name}|{key}", where=fn.loc(rets[0]),
+                          message=f"{fn.name} returns {key} = `{sorted(got)[0][:160] if got else None}`; expected `{want[key][:160]}`: the {kind} certificate element would hold "
+                                  "bytes the device did not sign (or not all of them) and its signature would not verify")
+
+
+def _sub(P, DA, name):
+    try:
+        return unwrap(P.const_eval(ast.parse(f"self.SUBCMD.{name}", mode="eval").body, DA.module, cls=DA))
+    except (Unknown, AnalysisError):
+        return "?"
+
+
 def _ui_pages(run, PV, D, ua, g, uo):
     """R4u: the UI attestation exchange: order of the requests and one page-loop iteration as a decision table."""
     P, A = run.P, run.A
@@ -549,6 +639,7 @@ def run(run):
                     run.check("R2", norm(d.get("message")) == "signed_data.hex()" and norm(d.get("signature")) == "signature.hex()",
                               "endorsement info fields", key="setup_endorsement_key|fields", where=fn.loc(r),
                               message=f"setup_endorsement_key returns {dict((k, norm(v)) for k, v in d.items())}")
+    _endorsement_parse(run, PV, DA, gd, gg, se, gs)
     roles = P.enum_members(P.cls("admin.dongle_admin._Role"))
     run.check("R2", roles["DEVICE"].value == 0x02 and roles["ENDORSEMENT"].value == 0xFF, "role bytes (device 0x02, endorsement 0xFF)",
               key="_Role|values", where="middleware/admin/dongle_admin.py", message=f"_Role values changed: {roles}")
